@@ -184,13 +184,13 @@ CHECKS = {
         engine="vdb"),
     "C24": dict(
         level="model_checking",
-        text='A real agdb_server process (built from /repo) is driven with random multi-user request sequences (two profiles: the whole endpoint table; and few operation kinds with many role holders - the same database name under several owners, roles granted, changed and removed, every role-gated operation tried by every kind of holder) over the whole documented endpoint table (user and /admin/ API: sessions, users, database add/delete/remove/copy/rename/backup/restore/rollback/clear/convert/optimize/exec/exec_mut/audit, database users) with valid, logged-out, deleted-user and bogus tokens; after every request the complete visible state (users, databases, roles, content, audit, files) is observed through a reserved admin session. ServerTrace.tla decides every request: 2xx only if the token is a live session AND Permitted (the documented table, literally); a rejected request leaves the observed state unchanged; a performed request changes only what its operation may change and role / user / session changes have their documented effect (revocation is immediate because the next request is judged against the updated state).',
-        design='3.11, 4 C24',
+        text='A real agdb_server process (built from /repo) is driven with random multi-user request sequences (two profiles: the whole endpoint table; and few operation kinds with many role holders - the same database name under several owners, roles granted, changed and removed, every role-gated operation tried by every kind of holder) over the whole documented endpoint table (user and /admin/ API: sessions, users, database add/delete/remove/copy/rename/backup/restore/rollback/clear/convert/optimize/exec/exec_mut/audit, database users) with valid, logged-out, deleted-user and bogus tokens; after every request the complete visible state (users, databases, roles, content, audit, files) is observed through a reserved admin session. ServerTrace.tla decides every request: 2xx only if the token is a live session AND Permitted (the documented table, literally); a rejected request leaves the observed state unchanged; a performed request changes only what its operation may change and role / user / session changes have their documented effect (revocation is immediate because the next request is judged against the updated state). Spec -> implementation, bounded-exhaustive: MCServerExport.tla (ServerTrace plus a constructive bounded state machine with the same Permitted table; TLC checks that every constructive successor satisfies ServerTrace!Effect) prints a shortest request history through every transition - every request form (callers alice, bob, the server admin, no session; every role-gated operation; every database key) in every distinct reachable configuration of databases and roles (8 320 transitions at depth 4; the quick tier replays a seeded sample of ~1 500) - and each is replayed on a real server and decided by ServerTrace; at least 90 % of the replayed requests must have the outcome the model expects (vacuity guard).',
+        design='A.1, 3.11, 4 C24',
         note="request sequences are sampled (seeded), one client at a time, 2 users + the server admin; sessions are tracked from "
              "login/logout because they are not observable; token expiry is not exercised (configuration minimum 60 s); single "
              "node server (every action still goes through the cluster log of one)",
         technique="TLA+ trace validation (TLC) of request/observation traces of a real agdb_server process against the ServerTrace "
-                  "specification",
+                  "specification + replay of TLC-generated request histories (every transition of the bounded permission model)",
         engine="vserver"),
     "C25": dict(
         level="model_checking",
